@@ -12,7 +12,7 @@ theorem escapeChar_eq (c : Char) : escapeChar c = '&' :: (refBody c ++ [';']) :=
 
 /-- characters that may appear inside a reference body / are harmless inside a quoted value -/
 def plainChar (c : Char) : Bool :=
-  c != ';' && c != '"' && c != '<' && c != '&' && !isCtl c && c != '>'
+  c != ';' && c != '"' && c != '<' && c != '&' && !isCtl c && c != '>' && c != ']'
 
 /-- the finite part: every code point of the two escape classes (and `>`) is written as a reference
 that decodes to itself and consists of plain characters only -/
@@ -58,7 +58,7 @@ theorem plain_all_ne_semi {s : Str} (h : s.all plainChar = true) : s.all (· != 
   simp only [List.all_eq_true] at *
   intro c hc; have := h c hc
   simp only [plainChar, Bool.and_eq_true] at this
-  exact this.1.1.1.1.1
+  exact this.1.1.1.1.1.1
 
 /-- one escaped character reads back as itself -/
 theorem unescGo_escapeChar (strict : Bool) (c : Char) (rest : Str)
@@ -133,6 +133,227 @@ theorem escape_text_safe (s : Str) : ∀ x ∈ escape isEscText s,
   · subst h; decide
   · subst h; decide
   · simp only [plainChar, Bool.and_eq_true, bne_iff_ne, ne_eq, Bool.not_eq_true'] at h
-    exact ⟨h.1.1.1.1.2, h.1.1.1.2, h.1.2⟩
+    exact ⟨h.1.1.1.1.1.2, h.1.1.1.1.2, h.1.1.2⟩
+
+/-! ### `P_ESCAPE_CONTENT` (class plus the `>` of `]]>`) -/
+
+theorem contentCls_eq : contentCls = isEscText := by funext c; rfl
+theorem escapeContent_eq (s : Str) : escapeContent s = escapeC isEscText 0 s := by
+  simp [escapeContent, contentCls_eq]
+
+theorem gt_not_isEscText : isEscText '>' = false := by decide
+theorem rbr_not_isEscText : isEscText ']' = false := by decide
+
+/-- `unescape ∘ _escape(·, P_ESCAPE_CONTENT) = id` on every string, whatever precedes it -/
+theorem unescGo_escapeC (strict : Bool) (s : Str) (hx : strict = true → s.all xmlChar = true) (nb : Nat) :
+    unescGo strict (escapeC isEscText nb s) none = some s := by
+  induction s generalizing nb with
+  | nil => simp [escapeC, unescGo]
+  | cons c rest ih =>
+    have hx' : strict = true → rest.all xmlChar = true := fun h => by
+      have := hx h; simp only [List.all_cons, Bool.and_eq_true] at this; exact this.2
+    have hc : strict = true → xmlChar c = true := fun h => by
+      have := hx h; simp only [List.all_cons, Bool.and_eq_true] at this; exact this.1
+    unfold escapeC
+    simp only
+    split
+    · rename_i hcls
+      have hcls' : isEscText c = true ∨ c = '>' := by
+        simp only [Bool.or_eq_true, Bool.and_eq_true, beq_iff_eq] at hcls
+        rcases hcls with h | h
+        · exact Or.inl h
+        · exact Or.inr h.1
+      rw [unescGo_escapeChar strict c _ hcls' hc, ih hx']; rfl
+    · rename_i hcls
+      have hne : c ≠ '&' := by
+        rintro rfl; simp [amp_isEscText] at hcls
+      simp only [unescGo, hne, ↓reduceIte, ih hx']; rfl
+
+theorem mem_escapeC {s : Str} {x : Char} {nb : Nat} (hx : x ∈ escapeC isEscText nb s) :
+    (x ∈ s ∧ isEscText x = false) ∨ x = '&' ∨ x = ';' ∨ plainChar x = true := by
+  induction s generalizing nb with
+  | nil => simp [escapeC] at hx
+  | cons c rest ih =>
+    unfold escapeC at hx
+    simp only at hx
+    split at hx
+    · rename_i hc
+      have hc' : isEscText c = true ∨ c = '>' := by
+        simp only [Bool.or_eq_true, Bool.and_eq_true, beq_iff_eq] at hc
+        rcases hc with h | h
+        · exact Or.inl h
+        · exact Or.inr h.1
+      rcases List.mem_append.mp hx with h | h
+      · rw [escapeChar_eq] at h
+        simp only [List.mem_cons, List.mem_append, List.not_mem_nil, or_false] at h
+        rcases h with h | h | h
+        · exact Or.inr (Or.inl h)
+        · have := (esc_char c hc').2.2
+          exact Or.inr (Or.inr (Or.inr (List.all_eq_true.mp this x h)))
+        · exact Or.inr (Or.inr (Or.inl h))
+      · rcases ih h with ⟨h1, h2⟩ | h
+        · exact Or.inl ⟨List.mem_cons_of_mem _ h1, h2⟩
+        · exact Or.inr h
+    · rename_i hc
+      rcases List.mem_cons.mp hx with h | h
+      · subst h
+        refine Or.inl ⟨List.mem_cons_self, ?_⟩
+        simp only [Bool.or_eq_true, not_or, Bool.not_eq_true] at hc
+        exact hc.1
+      · rcases ih h with ⟨h1, h2⟩ | h
+        · exact Or.inl ⟨List.mem_cons_of_mem _ h1, h2⟩
+        · exact Or.inr h
+
+/-- written text never contains `"`, `<` or a control character -/
+theorem escapeC_safe (s : Str) (nb : Nat) : ∀ x ∈ escapeC isEscText nb s,
+    x ≠ '"' ∧ x ≠ '<' ∧ isCtl x = false := by
+  intro x hx
+  rcases mem_escapeC hx with ⟨_, h⟩ | h | h | h
+  · simp only [isEscText, isEscTextN, Bool.or_eq_false_iff] at h
+    refine ⟨?_, ?_, ?_⟩
+    · rintro rfl; simp at h
+    · rintro rfl; simp at h
+    · simpa [isCtl] using h.1.1.1
+  · subst h; decide
+  · subst h; decide
+  · simp only [plainChar, Bool.and_eq_true, bne_iff_ne, ne_eq, Bool.not_eq_true'] at h
+    exact ⟨h.1.1.1.1.1.2, h.1.1.1.1.2, h.1.1.2⟩
+
+/-! ### no `]]>` in written text -/
+
+def startsRbGt : Str → Bool
+  | ']' :: '>' :: _ => true
+  | _ => false
+
+theorem hasCdataEnd_cons (c : Char) (s : Str) :
+    hasCdataEnd (c :: s) = ((c == ']' && startsRbGt s) || hasCdataEnd s) := by
+  by_cases hc : c = ']'
+  · subst hc
+    match s with
+    | [] => simp [hasCdataEnd, startsRbGt]
+    | [d] => 
+      by_cases hd : d = ']' <;> simp [hasCdataEnd, startsRbGt, hd]
+    | d :: e :: r =>
+      by_cases hd : d = ']'
+      · by_cases he : e = '>'
+        · subst hd he; simp [hasCdataEnd, startsRbGt]
+        · subst hd
+          rw [hasCdataEnd.eq_def]
+          simp [startsRbGt, he]
+      · rw [hasCdataEnd.eq_def]
+        simp [startsRbGt, hd]
+  · rw [hasCdataEnd.eq_def]
+    simp [hc]
+
+theorem startsRbGt_sep (a b : Str) {x : Char} (h1 : x ≠ ']') (h2 : x ≠ '>') :
+    startsRbGt (a ++ x :: b) = startsRbGt a := by
+  match a with
+  | [] => simp [startsRbGt, h1]
+  | [d] => 
+    by_cases hd : d = ']'
+    · subst hd; simp [startsRbGt, h2]
+    · simp [startsRbGt, hd]
+  | d :: e :: r => 
+    by_cases hd : d = ']'
+    · by_cases he : e = '>'
+      · subst hd he; simp [startsRbGt]
+      · subst hd; simp [startsRbGt, he]
+    · simp [startsRbGt, hd]
+
+theorem hasCdataEnd_sep (a b : Str) {x : Char} (h1 : x ≠ ']') (h2 : x ≠ '>') :
+    hasCdataEnd (a ++ x :: b) = (hasCdataEnd a || hasCdataEnd b) := by
+  induction a with
+  | nil => 
+    rw [List.nil_append, hasCdataEnd_cons]
+    simp [h1, hasCdataEnd]
+  | cons c rest ih =>
+    rw [List.cons_append, hasCdataEnd_cons, hasCdataEnd_cons, ih, startsRbGt_sep _ _ h1 h2]
+    simp [Bool.or_assoc]
+
+theorem hasCdataEnd_cons_of_ne {x : Char} (s : Str) (h : x ≠ ']') :
+    hasCdataEnd (x :: s) = hasCdataEnd s := by
+  rw [hasCdataEnd_cons]; simp [h]
+
+theorem hasCdataEnd_no_gt {s : Str} (h : '>' ∉ s) : hasCdataEnd s = false := by
+  induction s with
+  | nil => rfl
+  | cons c rest ih =>
+    have hr : '>' ∉ rest := fun hm => h (List.mem_cons_of_mem _ hm)
+    rw [hasCdataEnd_cons, ih hr]
+    match rest, hr with
+    | [], _ => simp [startsRbGt]
+    | [d], _ => by_cases hd : d = ']' <;> simp [startsRbGt, hd]
+    | d :: e :: r, hr =>
+      have : e ≠ '>' := fun he => hr (by simp [he])
+      by_cases hd : d = ']' <;> simp [startsRbGt, hd, this]
+
+theorem hasCdataEnd_replicate (n : Nat) : hasCdataEnd (List.replicate n ']') = false :=
+  hasCdataEnd_no_gt (by simp [List.mem_replicate])
+
+theorem plain_no_gt {s : Str} (h : s.all plainChar = true) : '>' ∉ s := by
+  intro hm
+  have := List.all_eq_true.mp h _ hm
+  simp [plainChar] at this
+
+/-- the invariant behind `escapeContent_no_cdata_end`: with `nb ≤ 2` closing brackets in front -/
+theorem hasCdataEnd_escapeC (s : Str) (nb : Nat) (hnb : nb ≤ 2) :
+    hasCdataEnd (List.replicate nb ']' ++ escapeC isEscText nb s) = false := by
+  induction s generalizing nb with
+  | nil => simp [escapeC, hasCdataEnd_replicate]
+  | cons c rest ih =>
+    unfold escapeC
+    simp only
+    split
+    · rename_i hcls
+      have hcls' : isEscText c = true ∨ c = '>' := by
+        simp only [Bool.or_eq_true, Bool.and_eq_true, beq_iff_eq] at hcls
+        rcases hcls with h | h
+        · exact Or.inl h
+        · exact Or.inr h.1
+      have hcb : c ≠ ']' := by
+        rcases hcls' with h | h
+        · rintro rfl; simp [rbr_not_isEscText] at h
+        · subst h; decide
+      simp only [hcb, ↓reduceIte]
+      have hb := (esc_char c hcls').2.2
+      rw [escapeChar_eq]
+      simp only [List.cons_append, List.append_assoc]
+      rw [hasCdataEnd_sep _ _ (by decide) (by decide), hasCdataEnd_replicate,
+        hasCdataEnd_sep _ _ (by decide) (by decide), hasCdataEnd_no_gt (plain_no_gt hb)]
+      simpa using ih 0 (by omega)
+    · rename_i hcls
+      simp only [Bool.or_eq_true, Bool.and_eq_true, beq_iff_eq, not_or, not_and] at hcls
+      by_cases hc : c = ']'
+      · subst hc
+        simp only [↓reduceIte]
+        rcases Nat.lt_or_ge nb 2 with h | h
+        · have : (List.replicate nb ']' ++ ']' :: escapeC isEscText (if nb = 0 then 1 else 2) rest)
+              = List.replicate (if nb = 0 then 1 else 2) ']' ++ escapeC isEscText (if nb = 0 then 1 else 2) rest := by
+            have : nb = 0 ∨ nb = 1 := by omega
+            rcases this with rfl | rfl <;> simp [List.replicate]
+          rw [this]; exact ih _ (by split <;> omega)
+        · have : nb = 2 := by omega
+          subst this
+          have h3 := ih 2 (by omega)
+          simp only [List.replicate, List.cons_append, List.nil_append] at h3 ⊢
+          have e2 : (if (2 : Nat) = 0 then 1 else 2) = 2 := by decide
+          rw [e2]
+          rw [hasCdataEnd_cons, h3]
+          simp [startsRbGt]
+      · simp only [hc, ↓reduceIte]
+        by_cases hg : c = '>'
+        · subst hg
+          have hnb2 : nb ≠ 2 := fun h => hcls.2 rfl h
+          have h0 := ih 0 (by omega)
+          simp only [List.replicate, List.nil_append] at h0
+          have : nb = 0 ∨ nb = 1 := by omega
+          rcases this with rfl | rfl
+          · simp only [List.replicate, List.nil_append]
+            rw [hasCdataEnd_cons_of_ne _ (by decide)]; exact h0
+          · simp only [List.replicate, List.cons_append, List.nil_append]
+            rw [hasCdataEnd_cons, hasCdataEnd_cons_of_ne _ (by decide), h0]
+            simp [startsRbGt]
+        · rw [hasCdataEnd_sep _ _ hc hg, hasCdataEnd_replicate]
+          simpa using ih 0 (by omega)
 
 end Capella.Xml
